@@ -79,6 +79,10 @@ FLOORS = {"quick": {"evaluations": 5500, "distinct_nontrivial": 3500,
                                     "contract_internal_calls": 110000, "rechunk_compared": 18000, "multistage_plans": 2600,
                                     "block_shapes_checked": 17000, "p2p_clear_error": 4400},
                        "sets": {"plan_stage_counts": 2}, "max_skipped_fraction": 0.3}}
+# sibling facet (vf/mon/siblings.py): ~45 % of the smallest count of the five quick seeds on the unchanged tree; thorough =
+# quick floor x (thorough / quick stream size) x 0.6.  A run in which the facet never executed is INCONCLUSIVE.
+FLOORS["quick"]["counters"].update({"siblings_built": 1700, "siblings_computed_together": 260, "siblings_with_different_values": 210})
+FLOORS["thorough"]["counters"].update({"siblings_built": 9800, "siblings_computed_together": 1500, "siblings_with_different_values": 1200})
 EXHAUSTIVE_SPACE = {"quick": "rechunk: all (source, target) chunking pairs of shape (5,) (16x16) and of shape (3,2) (8x8), method tasks",
                     "thorough": "rechunk: all (source, target) chunking pairs of shapes (5,), (3,2) and (4,3) (32x32), method tasks"}
 CLAIM = ("Every call of the real normalize_chunks made in the check's processes (direct generator and internal callers of "
